@@ -442,6 +442,25 @@ def run(ctx):
         stats['diag_programs'] += 1
         if not e1.startswith(p + want):
             ctx.violation('a diagnostic about the operands of an operator does not name that operator: %r, expected %s%s' % (e1, os.path.basename(p), want), src, 'c', key='diag:operator-location')
+    # a #pragma continued by a splice counts its physical lines; a presumed file name longer than any fixed buffer is printed whole
+    longname = 'dir/' + 'n' * 170 + '.h'
+    for src, want in [('#pragma omp parallel \\\n for\nint x = y;\n', ':3:9: error:'), ('#pragma a \\\n b \\\n c\n\nint x = y;\n', ':5:9: error:'),
+                      ('# 57 "%s" 1\nint x = y;\n' % longname, longname + ':57:9: error: '), ('#line 9 "%s"\n\nint x = y;\n' % (longname * 3), longname * 3 + ':10:9: error: ')]:
+        rc, out, e1, p = first_err(src)
+        stats['diag_programs'] += 1
+        if want not in e1 or ' error: ' not in e1 or len(e1) < len(want) + 5:
+            ctx.violation('diagnostic location: %r gives %r, expected %s followed by the message' % (src[:80], e1[:300], want[-60:]), src, 'c', key='diag:location')
+    # several input files: every file starts at line 1 with its own name
+    fa, fb, fc = os.path.join(work, 'multi_a.c'), os.path.join(work, 'multi_b.c'), os.path.join(work, 'multi_c.c')
+    open(fa, 'w').write('int a1;\n#line 40\nint a2;\nint a3;\n')
+    open(fb, 'w').write('int b1;\nint b2;\nint b3;\n')
+    open(fc, 'w').write('int c1;\nint c2 = nowhere;\n')
+    rc, out, err = run_limited([exe, fa, fb, fc], timeout=10, cap=1 << 20, env=ENV)
+    e1 = err.decode('latin-1').split('\n')[0]
+    stats['diag_programs'] += 1
+    if rc != 1 or not e1.startswith(fc + ':2:10: error:'):
+        ctx.violation('several input files: the diagnostic in the third file is %r (rc=%d), expected %s:2:10: error:' % (e1[:200], rc, os.path.basename(fc)),
+                      'int c1;\nint c2 = nowhere;\n', 'c', key='diag:location-second-file')
     # regression corpus of fixed defects
     for src, want in [('#line 100\n\nint x = y;\n', ':101:9: error:'), ('# 7 "foo.h" 1\n\n\nint x = y;\n', 'foo.h:9:9: error:'),
                       ('#line 010\nint x = y;\n', ':10:9: error:')]:
